@@ -353,6 +353,13 @@ static void check_stiff(Prob& p, const std::vector<std::vector<double>>& bs) {
   C("states"); C("stiff_states");
   std::vector<LD> sq(n); for (int i = 0; i < n; i++) sq[i] = sqrtl(fabsl(Qr(i, i)));
   LMat AQ = mul(p.A, Qr); LMat Hr = mul(AQ, tr(p.A));
+  // the solvers that form normal equations lose cond(N)*eps: the tolerance follows the conditioning
+  // (C02: "up to a tolerance proportional to the conditioning of the problem")
+  LD nN = 0, nQ = 0;
+  for (int i = 0; i < n; i++) { LD a1 = 0, a2 = 0; for (int j = 0; j < n; j++) { a1 += fabsl(p.N(i, j)); a2 += fabsl(Qr(i, j)); } nN = std::max(nN, a1); nQ = std::max(nQ, a2); }
+  const LD kappa = nN * nQ;
+  const LD TQ = std::max<LD>(1e-5L, 4 * kappa * 2.2e-16L);
+  if (kappa > 1e13L) { O("stiff:skipped-cond>1e13"); return; }
   for (size_t bi = 0; bi < bs.size(); bi++) {
     const std::vector<double>& b = bs[bi];
     // reference solution
@@ -371,12 +378,12 @@ static void check_stiff(Prob& p, const std::vector<std::vector<double>>& bs) {
       if (!finite_all(R.x) || !finite_all(R.r) || !std::isfinite(R.rtr)) { V(std::string("C01|nonfinite|") + ALGN[a] + "|stiff", cs, "non finite x/r/rtr"); continue; }
       if (R.defect != 0) { V(std::string("C01|defect|") + ALGN[a] + "|stiff", cs, "defect " + std::to_string(R.defect) + " for a regular (badly scaled) system"); V(std::string("C20|defect|") + ALGN[a] + "|stiff", cs, "defect reported for a regular system"); }
       LD ex = 0; for (int j = 0; j < n; j++) ex = std::max(ex, fabsl(R.x[j] - xr[j]));
-      if (ex > 1e-5L * xs) V(std::string("C01|x!=reference|") + ALGN[a] + "|stiff", cs, "max |x - x_ref| = " + str((double)ex) + " scale " + str((double)xs));
+      if (ex > TQ * xs) V(std::string("C01|x!=reference|") + ALGN[a] + "|stiff", cs, "max |x - x_ref| = " + str((double)ex) + " scale " + str((double)xs));
       LD e1 = 0; std::vector<LD> v(m);
       for (int i = 0; i < m; i++) { LD s = -b[i]; for (int j = 0; j < n; j++) s += p.A(i, j) * R.x[j]; e1 = std::max(e1, fabsl(s - R.r[i])); v[i] = R.r[i]; }
       if (e1 > 1e-8L * xs) V(std::string("C01|r!=Ax-b|") + ALGN[a] + "|stiff", cs, "max |r-(Ax-b)| = " + str((double)e1));
       LD vpv = 0; for (int i = 0; i < m; i++) for (int k = 0; k < m; k++) vpv += v[i] * p.P(i, k) * v[k];
-      if (fabsl(vpv - R.rtr) > 1e-6L * std::max<LD>(1e-12L, fabsl(vpv))) V(std::string("C01|rtr|") + ALGN[a] + "|stiff", cs, "rtr " + str(R.rtr) + " v'Pv " + str((double)vpv));
+      if (fabsl(vpv - R.rtr) > 1e-6L * std::max<LD>(1e-12L, fabsl(vpv)) + 1e-9L) V(std::string("C01|rtr|") + ALGN[a] + "|stiff", cs, "rtr " + str(R.rtr) + " v'Pv " + str((double)vpv));
       if (R.haveQ) {
         if (!finite_all(R.Q) || !finite_all(R.H) || !finite_all(R.Hs)) { V(std::string("C03|nonfinite|") + ALGN[a] + "|stiff", cs, "non finite cofactor"); continue; }
         LD eq = 0, es = 0; int wi = 0, wj = 0;
@@ -385,16 +392,16 @@ static void check_stiff(Prob& p, const std::vector<std::vector<double>>& bs) {
           if (d > eq) { eq = d; wi = i; wj = j; }
           es = std::max(es, fabsl((LD)R.Q[i * n + j] - R.Q[j * n + i]) / (sq[i] * sq[j]));
         }
-        if (eq > 1e-5L) V(std::string("C03|Q!=N^-1|") + ALGN[a] + "|stiff", cs, "q_xx(" + std::to_string(wi + 1) + "," + std::to_string(wj + 1) + ") = " + str(R.Q[wi * n + wj]) + " reference " + str((double)Qr(wi, wj)));
+        if (eq > TQ) V(std::string("C03|Q!=N^-1|") + ALGN[a] + "|stiff", cs, "q_xx(" + std::to_string(wi + 1) + "," + std::to_string(wj + 1) + ") = " + str(R.Q[wi * n + wj]) + " reference " + str((double)Qr(wi, wj)));
         if (es > 1e-9L) V(std::string("C03|Q-asymmetric|") + ALGN[a] + "|stiff", cs, "scaled asymmetry " + str((double)es));
         LD eh = 0; for (int i = 0; i < m; i++) for (int j = 0; j < m; j++) { LD sc = sqrtl(fabsl(Hr(i, i) * Hr(j, j))) + 1e-30L; eh = std::max(eh, fabsl(R.H[i * m + j] - Hr(i, j)) / sc); }
-        if (eh > 1e-5L) V(std::string("C03|qbb!=AQA'|") + ALGN[a] + "|stiff", cs, "scaled max = " + str((double)eh));
+        if (eh > TQ) V(std::string("C03|qbb!=AQA'|") + ALGN[a] + "|stiff", cs, "scaled max = " + str((double)eh));
         LMat Hs(m, m); for (int i = 0; i < m; i++) for (int j = 0; j < m; j++) Hs(i, j) = R.Hs[i * m + j];
         LMat HH = mul(Hs, Hs); LD e = 0, trc = 0, dmin = 1, dmax = 0;
         for (int i = 0; i < m; i++) { for (int j = 0; j < m; j++) { e = std::max(e, fabsl(HH(i, j) - Hs(i, j))); e = std::max(e, fabsl(Hs(i, j) - Hs(j, i))); } trc += 1 - Hs(i, i); dmin = std::min(dmin, Hs(i, i)); dmax = std::max(dmax, Hs(i, i)); }
-        if (e > 1e-4L) V(std::string("C03|projector-not-idempotent|") + ALGN[a] + "|stiff", cs, "max = " + str((double)e));
-        if (dmin < -1e-4L || dmax > 1 + 1e-4L) V(std::string("C03|projector-diagonal-range|") + ALGN[a] + "|stiff", cs, "diag in [" + str((double)dmin) + "," + str((double)dmax) + "]");
-        if (fabsl(trc - (m - n)) > 1e-4L * m) V(std::string("C03|redundancy-sum|") + ALGN[a] + "|stiff", cs, "sum(1-h_ii) = " + str((double)trc) + " dof " + std::to_string(m - n));
+        if (e > std::max<LD>(1e-4L, TQ)) V(std::string("C03|projector-not-idempotent|") + ALGN[a] + "|stiff", cs, "max = " + str((double)e));
+        if (dmin < -std::max<LD>(1e-4L, TQ) || dmax > 1 + std::max<LD>(1e-4L, TQ)) V(std::string("C03|projector-diagonal-range|") + ALGN[a] + "|stiff", cs, "diag in [" + str((double)dmin) + "," + str((double)dmax) + "]");
+        if (fabsl(trc - (m - n)) > std::max<LD>(1e-4L, TQ) * m) V(std::string("C03|redundancy-sum|") + ALGN[a] + "|stiff", cs, "sum(1-h_ii) = " + str((double)trc) + " dof " + std::to_string(m - n));
       }
     }
     for (int a = 0; a < 4; a++) for (int c = a + 1; c < 4; c++) {
@@ -403,11 +410,11 @@ static void check_stiff(Prob& p, const std::vector<std::vector<double>>& bs) {
       std::string cs = pk + ";" + std::to_string(bi) + ";S=all(null);" + ALGN[a] + "+" + ALGN[c];
       std::string pr = std::string(ALGN[a]) + "~" + ALGN[c];
       LD ex = 0; for (int j = 0; j < n; j++) ex = std::max(ex, fabsl((LD)R4[a].x[j] - R4[c].x[j]));
-      if (ex > 2e-5L * xs) V("C02|x|" + pr + "|stiff", cs, "max dx " + str((double)ex));
+      if (ex > 2 * TQ * xs) V("C02|x|" + pr + "|stiff", cs, "max dx " + str((double)ex));
       if (R4[a].defect != R4[c].defect) V("C02|defect|" + pr + "|stiff", cs, "defects differ");
       if (R4[a].haveQ && R4[c].haveQ) {
         LD eq = 0; for (int i = 0; i < n; i++) for (int j = 0; j < n; j++) eq = std::max(eq, fabsl((LD)R4[a].Q[i * n + j] - R4[c].Q[i * n + j]) / (sq[i] * sq[j]));
-        if (eq > 2e-5L) V("C02|q_xx|" + pr + "|stiff", cs, "scaled max dQ " + str((double)eq));
+        if (eq > 2 * TQ) V("C02|q_xx|" + pr + "|stiff", cs, "scaled max dQ " + str((double)eq));
       }
     }
   }
